@@ -1,7 +1,8 @@
 #!/bin/sh
 # Re-validate every kept seeded change and rewrite its meta.json (what it breaks, what was run, which checks caught it).
 cd "$(dirname "$0")/.." || exit 2
-for d in seeded/C??-?; do
+for d in seeded/C??-[0-9] seeded/C??-[0-9][0-9]; do
+  [ -d "$d" ] || continue
   idk=$(basename "$d"); id=${idk%-*}; k=${idk#*-}
   line=$(tools/seedeval.sh "$id" "$k" | tail -1)
   echo "$line"
